@@ -290,6 +290,8 @@ def main(chk, replay=None):
             chk.extra['tlaps'] = {'module': 'spec/proofs/HistBinsProofs.tla', 'error': repr(e)[:200]}
     chk.exhaustive = True
 
+    from harness import session
+    session.run(chk, 'C19', every=4 if chk.quick else 1)    # spec/Session.tla: the property in every state of analysis sessions
 
 if __name__ == '__main__':
     run_driver('C19', main)
